@@ -90,11 +90,11 @@ fn check_unmapped(range: BitRange, lo: u32, hi: u32) {
 // grows past 45 GB (measured).  What is decided instead: the bit ranges themselves, the confidence
 // function for every input, the per-candidate heuristics, and (witness) that a candidate is reachable.
 
-/// F: minidump_processor::memory_operation::MemoryOperation::{is_possibly_allowed_for, is_allowed_for}, MinidumpMemoryInfo::{is_readable, is_writable, is_executable} through UnifiedMemoryInfo
+/// F: minidump_processor::memory_operation::MemoryOperation::{is_possibly_allowed_for, is_allowed_for, from_crash_reason}, MinidumpMemoryInfo::{is_readable, is_writable, is_executable} through UnifiedMemoryInfo
 /// I: the region's protection word (full u32); the crashing operation (4 variants)
 /// B: one region
 /// A: the region value is built from all-zero bytes plus the protection field (its other fields are not consulted)
-/// O: a candidate region permits the crashing kind of access exactly per the Windows page-protection constants: read = READONLY|READWRITE|EXECUTE_READ|EXECUTE_READWRITE, write = READWRITE|WRITECOPY|EXECUTE_READWRITE|EXECUTE_WRITECOPY, execute = any EXECUTE*; an undetermined operation is possibly allowed everywhere and definitely allowed nowhere
+/// O: a candidate region permits the crashing kind of access exactly per the Windows page-protection constants: read = READONLY|READWRITE|EXECUTE_READ|EXECUTE_READWRITE, write = READWRITE|WRITECOPY|EXECUTE_READWRITE|EXECUTE_WRITECOPY, execute = any EXECUTE*; an undetermined operation is possibly allowed everywhere and definitely allowed nowhere; a Windows access violation of kind read / write / execute gives that operation, any other crash reason gives undetermined
 #[kani::proof]
 fn c19_q_memory_operation_permissions() {
     let mut mi: minidump::MinidumpMemoryInfo = unsafe { std::mem::zeroed() };
@@ -113,6 +113,14 @@ fn c19_q_memory_operation_permissions() {
     assert!(MemoryOperation::Execute.is_allowed_for(&u) == x);
     assert!(!MemoryOperation::Undetermined.is_allowed_for(&u));
     kani::cover!(r && !w, "a readable but not writable region");
+    // the kind of access is taken from the crash reason: only Windows access violations say which
+    use minidump::CrashReason;
+    use minidump_common::errors::ExceptionCodeWindowsAccessType as A;
+    assert!(MemoryOperation::from_crash_reason(&CrashReason::WindowsAccessViolation(A::READ)) == MemoryOperation::Read);
+    assert!(MemoryOperation::from_crash_reason(&CrashReason::WindowsAccessViolation(A::WRITE)) == MemoryOperation::Write);
+    assert!(MemoryOperation::from_crash_reason(&CrashReason::WindowsAccessViolation(A::EXEC)) == MemoryOperation::Execute);
+    assert!(MemoryOperation::from_crash_reason(&CrashReason::Unknown(kani::any(), kani::any())) == MemoryOperation::Undetermined);
+    assert!(MemoryOperation::from_crash_reason(&CrashReason::WindowsUnknown(kani::any())) == MemoryOperation::Undetermined);
 }
 
 /// F: minidump_processor::processor::bitflip::BitRange::range
